@@ -68,21 +68,38 @@ def main():
                 ck.rng.shuffle(extra)
                 add(cid, scr + "\n".join(extra[:6]) + "\nSOLVE EXACT P\nACCESS\n", "driver-outcomes+rejected")
         scripts = dict(cases)
-        env = {"ASAN_OPTIONS": "detect_leaks=1:exitcode=99:abort_on_error=0:fast_unwind_on_malloc=0", "QSX_SCRATCH": tmp}
+        env = {"ASAN_OPTIONS": "detect_leaks=1:exitcode=99:abort_on_error=0", "QSX_SCRATCH": tmp}
         M, outs, crashes = run_cases("h_solve", cases, asan=True, per_case_timeout=120, env=env)
-        nleak = ncrash = 0
-        hist = {}
+        # leaking cases are grouped by their (truncated) fast stacks; up to `cap` representatives per group are
+        # re-run alone with full unwinding so that the allocation site is a library frame
+        env2 = {"ASAN_OPTIONS": "detect_leaks=1:exitcode=99:abort_on_error=0:fast_unwind_on_malloc=0", "QSX_SCRATCH": tmp}
+        groups = {}
         for cid, rc, err in crashes:
             if "LeakSanitizer" in err:
-                nleak += 1
-                sites = sorted(set(leak_sites(err)))
-                direct = [s for s in sites if s[0] == "Direct"] or sites
-                fn = direct[0][1] if direct else "?"
-                ck.violation("leak_%s.txt" % cid, scripts[cid] + "\n# " + err[-2500:].replace("\n", "\n# "),
-                             "memory leaked after everything was freed and the library shut down (case %s, %s): allocation sites %s" % (cid, kinds[cid], direct[:4]),
-                             match=dict(kind="leak", site=fn))
-            else:
-                ncrash += 1     # crashes are C17's / C07's business
+                sig = (kinds[cid], tuple(sorted(set(leak_sites(err)))), tuple(sorted(set(re.findall(r"leak of (\d+) byte", err)))))
+                groups.setdefault(sig, []).append(cid)
+        cap = 3 if ck.thorough() else 1
+        reps = [c for g in groups.values() for c in g[:cap]]
+        from concurrent.futures import ThreadPoolExecutor
+        with ThreadPoolExecutor(max_workers=16) as ex:
+            rer = list(ex.map(lambda c: run_harness("h_solve", scripts[c], timeout=300, asan=True, env=env2), reps))
+        nleak = sum(len(g) for g in groups.values())
+        ncrash = sum(1 for cid, rc, err in crashes if "LeakSanitizer" not in err)
+        ck.cov["crash_samples"] = [(cid, rc, re.sub(r"\s+", " ", err[:1500])) for cid, rc, err in crashes if "LeakSanitizer" not in err][:4]
+        seen_sites = {}
+        for cid, (rc2, out2, err2) in zip(reps, rer):
+            sites = sorted(set(leak_sites(err2)))
+            for kind_, fn, fl in sites:
+                if kind_ != "Direct" and any(k2 == "Direct" for k2, _, _ in sites):
+                    continue
+                seen_sites.setdefault((fn, fl), cid)
+        for (fn, fl), cid in sorted(seen_sites.items()):
+            ck.violation("leak_%s_%s.txt" % (fn, cid), scripts[cid] + "\n# allocation site %s (%s)\n" % (fn, fl),
+                         "memory allocated in %s (%s) is still allocated after every object was freed and the library shut down (case %s, %s)" % (fn, fl, cid, kinds[cid]),
+                         match=dict(kind="leak", site=fn))
+        ck.cov["leak_sites"] = ["%s (%s)" % k for k in sorted(seen_sites)]
+        ck.cov["leak_groups"] = len(groups)
+        hist = {}
         for cid in outs:
             ck.count((kinds[cid], scripts[cid][:300]))
             hist[kinds[cid]] = hist.get(kinds[cid], 0) + 1
